@@ -328,6 +328,7 @@ func runQueryWire(c *Ctx, pr *PropertyRun, prop, pkg string) {
 	en.Exhaustive = true
 	pr.Rules = append(pr.Rules, en)
 	enumRule(c, en, pkg, "negateCondition", map[string]string{"yes": "true", "no": "false"})
+	enumTypedAttributesRule(c, en)
 	if prop == "C09" {
 		enumRule(c, en, pkg, "filterTest", map[string]string{"anyof": "anyof", "allof": "allof"})
 		enumRule(c, en, pkg, "matchType", map[string]string{"equals": "equals", "contains": "contains", "starts-with": "starts-with", "ends-with": "ends-with"})
